@@ -21,10 +21,34 @@ pub fn dispatch(cmd: &str, a: &Args) -> bool {
 }
 
 /// Write a "current input" marker so the driver can name the input when the process hangs/aborts.
-pub struct Cur(std::fs::File);
+/// The input being processed, kept in a side file so that a crash or a hang of the code under test can be attributed; a
+/// watchdog thread ends the process (exit 86) when no new input has been started for 40 seconds (a spin that performs no
+/// input operation is not seen by the counting wrapper).
+pub struct Cur(std::fs::File, std::sync::Arc<std::sync::atomic::AtomicU64>);
 impl Cur {
     pub fn new(path: &str) -> Cur {
-        Cur(std::fs::File::create(path).unwrap())
+        use std::sync::atomic::{AtomicU64, Ordering};
+        let ticks = std::sync::Arc::new(AtomicU64::new(0));
+        let t2 = ticks.clone();
+        let limit: u64 = std::env::var("VERIF_STALL_SECS").ok().and_then(|x| x.parse().ok()).unwrap_or(40);
+        std::thread::spawn(move || {
+            let (mut last, mut since) = (u64::MAX, 0u64);
+            loop {
+                std::thread::sleep(std::time::Duration::from_secs(2));
+                let now = t2.load(Ordering::Relaxed);
+                if now == last {
+                    since += 2;
+                    if since >= limit && now > 0 {
+                        eprintln!("STALL: no progress for {since} s on the input named in the .cur file");
+                        std::process::exit(86);
+                    }
+                } else {
+                    last = now;
+                    since = 0;
+                }
+            }
+        });
+        Cur(std::fs::File::create(path).unwrap(), ticks)
     }
     pub fn set(&mut self, text: &str, cfg: &str) {
         use std::io::{Seek, SeekFrom};
@@ -32,6 +56,7 @@ impl Cur {
         let _ = self.0.seek(SeekFrom::Start(0));
         let _ = self.0.set_len(0);
         let _ = self.0.write_all(s.as_bytes());
+        self.1.fetch_add(1, std::sync::atomic::Ordering::Relaxed);
     }
 }
 
